@@ -408,6 +408,60 @@ def _thread_constant_returns(blocks, bo, n, ret_local, target):
         blocks[i] = {"c": b["c"], "s": list(b["s"]), "t": [b["t"][0], b["t"][1], "goto", fix(first_tgt)]}
 
 
+def _scc_ids(prog):
+    """function name -> id of its non-trivial strongly connected component of the raw call graph (direct calls only)"""
+    memo = prog.__dict__.get("_scc_ids")
+    if memo is not None:
+        return memo
+    cg = {}
+    for name, g in prog.raw_fns.items():
+        outs = set()
+        for b in g["blocks"]:
+            t = b["t"]
+            if t[2] == "call" and isinstance(t[3], dict):
+                tg = t[3].get("r") or t[3].get("d")
+                if tg in prog.raw_fns:
+                    outs.add(tg)
+        cg[name] = outs
+    # iterative Tarjan
+    index, low, on, st, ids, counter, nid = {}, {}, set(), [], {}, [0], [0]
+    for root in cg:
+        if root in index:
+            continue
+        work = [(root, iter(cg[root]))]
+        index[root] = low[root] = counter[0]; counter[0] += 1
+        st.append(root); on.add(root)
+        while work:
+            v, it = work[-1]
+            adv = False
+            for w in it:
+                if w not in index:
+                    index[w] = low[w] = counter[0]; counter[0] += 1
+                    st.append(w); on.add(w)
+                    work.append((w, iter(cg[w])))
+                    adv = True
+                    break
+                elif w in on:
+                    low[v] = min(low[v], index[w])
+            if adv:
+                continue
+            work.pop()
+            if work:
+                low[work[-1][0]] = min(low[work[-1][0]], low[v])
+            if low[v] == index[v]:
+                comp = []
+                while True:
+                    w = st.pop(); on.discard(w); comp.append(w)
+                    if w == v:
+                        break
+                if len(comp) > 1:
+                    nid[0] += 1
+                    for w in comp:
+                        ids[w] = nid[0]
+    prog.__dict__["_scc_ids"] = ids
+    return ids
+
+
 def inlinable(prog, caller_name, callee_name, stack):
     g = prog.raw_fns.get(callee_name)
     if g is None or callee_name == caller_name or callee_name in stack:
@@ -424,6 +478,13 @@ def inlinable(prog, caller_name, callee_name, stack):
         return False
     if len(g["blocks"]) > 150:
         return False
+    # mutual recursion: a small helper on the cycle may be spliced into the function that drives the recursion
+    # (`evaluate_binary` into `evaluate_expression`), never the big function into its helper
+    scc = _scc_ids(prog)
+    if scc.get(callee_name) is not None and scc.get(callee_name) == scc.get(caller_name):
+        c = prog.raw_fns.get(caller_name) or {"blocks": []}
+        if len(g["blocks"]) > len(c["blocks"]):
+            return False
     # direct self-recursion
     for b in g["blocks"]:
         t = b["t"]
